@@ -1,6 +1,7 @@
 package repsim
 
 import (
+	"encoding/json"
 	"fmt"
 	"os"
 	"path/filepath"
@@ -533,6 +534,8 @@ func (x *run) doStep(rs *repState, s *sim.Step, pre *obs) error {
 		} else {
 			err = x.guard("remove", func() error { return x.stepRemove(rs, s) })
 		}
+	case "foreign":
+		err = x.guard("foreign", func() error { return x.stepForeign(rs, s) })
 	case "wipe":
 		err = x.guard("wipe", func() error { return x.stepWipe(rs, s) })
 	case "cli":
@@ -1429,4 +1432,47 @@ func (x *run) nontrivial() bool {
 
 func openRaw(dir string) (*repository.GoGitRepo, error) {
 	return repository.OpenGoGitRepo(dir, "git-bug", nil)
+}
+
+// stepForeign: somebody publishes, under the id of a bug this replica has not pushed yet, a history
+// that is valid on its own but is not a continuation of the local one: the same first operation
+// committed again as an unrelated root, plus a commit of its own. A merge of the two must be
+// refused and leave the local bug alone - at every instant.
+func (x *run) stepForeign(rs *repState, s *sim.Step) error {
+	hub := x.hubFor(rs, s.H)
+	if hub == nil {
+		return fmt.Errorf("no remote")
+	}
+	var id string
+	for _, cand := range x.localBugIds(rs) {
+		if _, err := rs.r.Raw.ResolveRef("refs/remotes/" + hub.Name + "/bugs/" + cand); err != nil {
+			id = cand // never pushed to nor fetched from that remote
+		}
+	}
+	if id == "" {
+		return fmt.Errorf("no unpublished bug")
+	}
+	ent, err := model.ReadEntity(rs.r.Raw, "refs/bugs/"+id)
+	if err != nil || ent.Root == nil || len(ent.Root.Ops) == 0 {
+		return fmt.Errorf("local bug not decodable: %v", err)
+	}
+	adv, err := repository.OpenGoGitRepo(hub.Dir, "git-bug-adversary", nil)
+	if err != nil {
+		return err
+	}
+	defer adv.Close()
+	root := ent.Root
+	spec := model.PackSpec{Author: root.Author, Ops: []json.RawMessage{root.Ops[0].Raw}, Edit: root.EditTime, Create: root.CreateTime, Version: root.Version}
+	rh, err := model.StoreCommitOf(adv, spec.Entries())
+	if err != nil {
+		return err
+	}
+	op2 := model.OpJSON(map[string]interface{}{"type": model.OpAddComment, "timestamp": rs.r.Wall, "nonce": model.Nonce(uint64(s.Id)+4242, 20), "message": "published by somebody else", "files": nil})
+	spec2 := model.PackSpec{Author: root.Author, Ops: []json.RawMessage{op2}, Edit: ent.MaxEdit() + 1, Version: root.Version}
+	h2, err := model.StoreCommitOf(adv, spec2.Entries(), rh)
+	if err != nil {
+		return err
+	}
+	x.probe("foreign_history_published")
+	return adv.UpdateRef("refs/bugs/"+id, h2)
 }
